@@ -137,12 +137,19 @@ type FnCtx struct {
 	pendingClosed [][2]string
 	closedDecls   []string
 	cands         []string
+	sliceLows     []string // symbolic lower bounds of reslicing expressions (indices into the base are lo+i)
+	foldTerms     map[string][]foldRec
+	recording     *[]string                  // when set, heap variables read are recorded here
 	localRefs     map[string]bool            // objects allocated by this function that have not escaped (never stored, passed or returned)
 	reachBlock    map[string]*ssa.BasicBlock // reach term of a top-level block -> block
 	ancCache      map[*ssa.BasicBlock]map[*ssa.BasicBlock]bool
 	candBlock     map[string]*ssa.BasicBlock
 	curBlock      *ssa.BasicBlock // block being executed in the top-level frame
 	appendLens    []string
+	declStamp     map[int]int
+	stampFloor    int
+	candKind      map[string]int
+	skKind        map[string]int
 	appendOffs    []string
 	heapAlloc     map[string]string // heap version -> allocation counter when it was created
 	closedNoted   map[string]bool
@@ -203,13 +210,29 @@ func (fc *FnCtx) addFactQ(guard, term string, qs []QInst) {
 	fc.facts = append(fc.facts, Fact{Guard: guard, Term: term, Quants: qs})
 }
 
+// candidate kinds: positions in sequences, keys of maps. A quantifier over a range is instantiated at
+// positions, one over dom(m) at keys; terms of unknown kind (0) go to both.
+const (
+	kIdx = 1
+	kKey = 2
+)
+
 // addCand registers a ground term at which quantified hypotheses get instantiated
-func (fc *FnCtx) addCand(t string) {
+func (fc *FnCtx) addCand(t string) { fc.addCandK(t, kIdx) }
+
+func (fc *FnCtx) addCandK(t string, kind int) {
 	if fc.candSet == nil {
 		fc.candSet = map[string]bool{}
 		fc.candBlock = map[string]*ssa.BasicBlock{}
 	}
-	if fc.candSet[t] || len(t) > 200 {
+	if fc.candKind == nil {
+		fc.candKind = map[string]int{}
+	}
+	if len(t) > 200 {
+		return
+	}
+	fc.candKind[t] |= kind
+	if fc.candSet[t] {
 		return
 	}
 	fc.candSet[t] = true
@@ -223,6 +246,17 @@ func (fc *FnCtx) permFact(term string) {
 	if term == "true" {
 		return
 	}
+	// the fact is stamped with the number of path facts that existed when it was created: an obligation raised
+	// earlier cannot need it (all terms of the obligation existed before). Inside a loop dry run, whose path
+	// facts are rolled back, the stamp is that of the loop entry.
+	stamp := len(fc.facts)
+	if fc.stampFloor >= 0 && fc.stampFloor < stamp {
+		stamp = fc.stampFloor
+	}
+	if fc.declStamp == nil {
+		fc.declStamp = map[int]int{}
+	}
+	fc.declStamp[len(fc.decls)] = stamp
 	fc.decls = append(fc.decls, "(assert "+term+")")
 }
 
@@ -721,6 +755,9 @@ func (fc *FnCtx) closedGround(t, name, v, key string) {
 
 // get current term of heap var
 func (fc *FnCtx) get(st *State, name string) string {
+	if fc.recording != nil {
+		*fc.recording = append(*fc.recording, name)
+	}
 	if t, ok := st.vars[name]; ok {
 		return t
 	}
@@ -729,6 +766,15 @@ func (fc *FnCtx) get(st *State, name string) string {
 		fc.declSet["closed:"+name] = true
 		if cf := fc.closedFact(n0, name, fc.declare(hAlloc+"!0", "Int")); cf != "true" {
 			fc.closedDecls = append(fc.closedDecls, "(assert "+cf+")")
+		}
+		// convention: row 0 (nil) of an entry-state reference heap reads nil. Go code never reads that row (a nil
+		// dereference panics and is an obligation of its own); spec expressions are total, and without the
+		// convention p.f for a nil p would be an arbitrary reference that may alias freshly allocated objects.
+		if vt := heapValType[name]; vt != nil && !strings.HasPrefix(fc.varSort[name], "(Array Int (Array") {
+			switch vt.Underlying().(type) {
+			case *types.Pointer, *types.Map, *types.Chan:
+				fc.permFact(sEq(sSel(n0, "0"), "0"))
+			}
 		}
 	}
 	return n0
